@@ -562,7 +562,26 @@ func main() {
 				res = okErr(err)
 			}
 		} else {
-			res = common.Safe(func() string { return s.op(w) })
+			res = common.Safe(func() (r string) {
+				// the Go API documents that Get/GetSymbol panic with an *Exception when JS code throws: that is a throw, not a crash
+				defer func() {
+					if x := recover(); x != nil {
+						if ex, ok := x.(*goja.Exception); ok {
+							r = okErr(ex)
+							return
+						}
+						if o, ok := x.(*goja.Object); ok {
+							// internal throw that reached the Go API caller as the raw error object
+							if n := o.Get("name"); n != nil && n.String() == "TypeError" {
+								r = "throw"
+								return
+							}
+						}
+						panic(x)
+					}
+				}()
+				return s.op(w)
+			})
 		}
 		if cyc >= 0 {
 			// the operation was about to close a prototype cycle: if the implementation accepted it, report and cut it
